@@ -58,6 +58,11 @@ def run(binary, limit_s=15.0):
         d = os.path.join(build.WORK, "scratch", "c17corpus-%d" % os.getpid(), os.path.basename(path)[:-5])
         shutil.rmtree(d, ignore_errors=True)
         l3.write_cache(ds, d)
+        if c.get("fault"):      # e.g. ["flip", "nodes/", 33]: fault kind, file (first file with this prefix), argument
+            import faults
+            kind, prefix, arg = c["fault"]
+            rel = sorted(f for f in faults.list_files(d) if f.startswith(prefix))[0]
+            faults.apply_in_place(d, (kind, rel, arg if not isinstance(arg, list) else tuple(arg)))
         stub = l3.OsrmStub()
         srv = None
         try:
@@ -71,6 +76,8 @@ def run(binary, limit_s=15.0):
                 st, hd, body = None, None, b""
             took = time.time() - t0
             ok_answer = st in (200, 400) and body.strip().startswith(b"{")
+            if st is None and not srv.alive() and c.get("fault"):
+                pass
             if not ok_answer:
                 fails.append(("%s: the request was not answered within %.0f s (status %r, %.1f s); server %s — %s"
                               % (os.path.basename(path), limit_s, st, took, "alive" if srv.alive() else "dead: " + srv.crash_report()[:200], c["what"][:200]), path))
